@@ -110,6 +110,8 @@ def describe_steps(steps):
             out.append('RAISE(%s)' % st[1].__name__)
         elif k == 'sleep':
             out.append('SLEEP(%s)' % st[1])
+        elif k == 'mut':
+            out.append('MUTATE-LAST')
         else:
             out.append(k.upper())
     return ' '.join(out)
@@ -295,6 +297,7 @@ class Env(object):
         self.recorder = recorder
         self.journal = []           # (kind, alias, token, thread)
         self.tripwire = False
+        self.fresh_copies = False     # hand out deep copies (for services that mutate what they receive)
         self.allowed_bodies = set()  # tokens whose body execution is predicted in replay (run-original policy)
         self.tls = threading.local()
         self.lock = threading.Lock()
@@ -340,9 +343,10 @@ class Env(object):
             ex = out[1]()
             call['raised'] = ex
             raise ex
-        call['returned'] = out[1]
+        value = copy.deepcopy(out[1]) if self.fresh_copies else out[1]
+        call['returned'] = value
         call['returned_set'] = True
-        return out[1]
+        return value
 
     def call_nested(self, ispec, dep):
         kind, idx = ispec.nested
@@ -386,9 +390,10 @@ class Env(object):
             ex = out[1]()
             call['raised'] = ex
             raise ex
-        call['returned'] = out[1]
+        value = copy.deepcopy(out[1]) if self.fresh_copies else out[1]
+        call['returned'] = value
         call['returned_set'] = True
-        return out[1]
+        return value
 
 
 class RevInputHandler(InputInterceptionDataHandler):
@@ -451,6 +456,8 @@ class Service(object):
         self.checks = []         # per-call observations for the transparency oracle
         self.threads = []        # (name, thread object, obs list)
         self.extractor_calls = 0
+        self.mut_tape = None
+        self.last_value = None
         self.partial_obs = None
         self.slept = 0.0
         self.last_result = None
@@ -658,6 +665,11 @@ class Interp(object):
                 raise D.Interrupt()
             elif k == 'return':
                 raise EarlyReturn()
+            elif k == 'mut':
+                target = getattr(svc, 'last_value', None)
+                if target is not None and svc.mut_tape is not None:
+                    if V.mutate_in_place(svc.mut_tape, target):
+                        env.run.probe('service_mutated_value')
             elif k == 'sleep':
                 if self.clock is not None:
                     self.clock.advance(st[1])
@@ -724,6 +736,7 @@ class Interp(object):
         svc.checks.append(CallCheck('in', ispec.alias, tname, call.get('bodies', 0),
                                     call.get('returned_set', False) and ret is call.get('returned'), None,
                                     call.get('args_identical'), note))
+        svc.last_value = ret
         if isinstance(ret, (D.Unserializable, D.CopyFails)):
             obs.append(['in', ispec.alias, 'opaque', type(ret).__name__])
         else:
@@ -754,6 +767,7 @@ class Interp(object):
         svc.checks.append(CallCheck('out', ospec.alias, tname, call.get('bodies', 0),
                                     call.get('returned_set', False) and ret is call.get('returned'), None,
                                     call.get('args_identical'), None))
+        svc.last_value = ret
         if isinstance(ret, (D.Unserializable, D.CopyFails)):
             obs.append(['out', ospec.alias, 'opaque', type(ret).__name__])
         else:
